@@ -160,6 +160,60 @@ def rules(ctx, tier):
                                 b.file, b.blocks[x]["span"]["line"]))
     r.need(1, "settings publish site")
     out.append(r.finish())
+
+    r = Rule("R6", "the remembered directory layout is never undone: nothing removes or renames directories under cas/, and "
+                   "the publish step skips creating the shard directory only under the stored flag",
+             "with a pre-created tree a shard directory is removed; the next blob hashing into it cannot be published: a "
+             "put fails (or behaves differently) depending on the creation-time choice")
+    from ..events import is_cas_class
+    n = 0
+    for e in ctx.fx.effects:
+        if e.kind in ("FS_RMDIR", "FS_RMDIR_ALL") and any(is_cas_class(c) or c.startswith("PARENT:CAS") for c in e.classes):
+            r.bad("rmdir-under-cas:%s" % site_construct(e.site), e.site.body,
+                  "%s removes a directory under cas/ at %s" % (site_construct(e.site), site_where(e.site)), site_where(e.site))
+        if e.kind == "FS_RENAME" and any(c in ("CAS_DIR", "CAS_ROOT") for c in e.classes | e.classes2):
+            r.bad("rename-dir-under-cas:%s" % site_construct(e.site), e.site.body,
+                  "a directory under cas/ is renamed at %s" % site_where(e.site), site_where(e.site))
+    # publish body: rename dominated by mkdir(parent) Ok edge, or by the flag's true edge
+    for e in ctx.fx.of_kind("FS_RENAME"):
+        if not (e.classes2 and e.classes2 <= {"CAS_BLOB"}):
+            continue
+        b = e.site.body
+        rf = must.rf(b)
+        mk = [x.site for x in ctx.fx.effects if x.site.body.path == b.path and x.kind == "FS_MKDIR" and
+              any(is_cas_class(c) or c.startswith("PARENT:CAS") for c in x.classes)]
+        edges = []
+        for m in mk:
+            edges += rf.ok_edges_of(m.bb)
+        sl = Slicer(ctx.world, b)
+        for sw in b.normal_blocks():
+            c = cfgutil.switch_condition(b, sw)
+            if c and c[0] == "bool":
+                lv = sl.leaves_of_operand(c[1])
+                if lv and all(l[0] == "param" and l[1] == 1 and l[2] for l in lv) and \
+                        prog.ty_str(ctx.world._field_ty(("F", prog.adt_of(b.locals[1])[0], list(lv)[0][2][-1])) or 0) == "bool":
+                    tt, ff = cfgutil.true_false_edges(b, sw)
+                    # `!flag` is lowered as Not: switch_condition keeps the operand; accept either edge that bypasses mkdir
+                    for t in (tt, ff):
+                        if t is not None and not any(m.bb in cfgutil.reach(b, t) and not b.dominates(e.site.bb, m.bb) for m in mk):
+                            edges.append((sw, t))
+        # a path without a parent has no directory to create
+        for sw in b.normal_blocks():
+            c = cfgutil.switch_condition(b, sw)
+            if c and c[0] == "discr":
+                lv = sl.leaves_of_place(c[1])
+                if lv and all(l[0] == "call" and l[1] == "std::path::Path::parent" for l in lv):
+                    ed = cfgutil.switch_edges(b, sw)
+                    none_t = ed.get(0, ed["otherwise"] if 1 in ed else None)
+                    if none_t is not None:
+                        edges.append((sw, none_t))
+        n += 1
+        r.check(bool(edges) and cfgutil.edges_dominate(b, edges, e.site.bb), "parent-dir-exists", b,
+                "the publish rename at %s happens after the shard directory was created, or under the stored 'pre-created' flag" % site_where(e.site),
+                "the publish rename at %s can happen without the shard directory having been created and without the "
+                "stored flag vouching for it" % site_where(e.site), site_where(e.site))
+    r.need(1, "publish rename")
+    out.append(r.finish())
     return out
 
 
